@@ -28,7 +28,8 @@ Inductive oframe :=
 
 Inductive group :=
   G (now : Z) (cmds : list cmd) (frames : list oframe) (closed : bool)
-    (queries : list (str * bool))                 (* (secret, tls) of each request the stub received *)
+    (queries : list (str * bool * ccert))         (* (secret, tls, common_name) of each request the stub received;
+                                                     the common name as the certificate that carries it *)
     (topics : list (str * N))                     (* topic, message_count *)
     (chans : list (str * str * N)).               (* topic, channel, client_count *)
 
@@ -76,9 +77,10 @@ Definition same_set {A : Type} (eqb : A -> A -> bool) (x y : list A) : bool :=
 Definition world_agrees (with_clients : bool) (w : world) (topics : list (str * N)) (chans : list (str * str * N)) : bool :=
   same_set topic_eqb (w_topics w) topics && same_set (chan_eqb with_clients) (w_chans w) chans.
 
-Definition query_eqb (a b : str * bool) : bool := str_eqb (fst a) (fst b) && Bool.eqb (snd a) (snd b).
-Definition queries_of (fx : list effect) : list (str * bool) :=
-  flat_map (fun f => match f with FxAuthQuery s t => [(s, t)] | _ => [] end) fx.
+Definition query_eqb (a b : str * bool * ccert) : bool :=
+  match a, b with (s, t, c), (s', t', c') => str_eqb s s' && Bool.eqb t t' && ccert_eqb c c' end.
+Definition queries_of (fx : list effect) : list (str * bool * ccert) :=
+  flat_map (fun f => match f with FxAuthQuery s t c => [(s, t, c)] | _ => [] end) fx.
 
 (* ------------------------------------------------------------------ agree: the model on the same input *)
 Definition mrun := Gate.run kp_match kp_ok.
@@ -192,7 +194,7 @@ Definition monitor_group (cfg : config) (m : mstate) (g : group) (is_last : bool
           end
         else true in
       (* every request the stub saw carries the connection's real TLS status *)
-      let r4 := forallb (fun x => Bool.eqb (snd x) (m_up m)) qs in
+      let r4 := forallb (fun x => Bool.eqb (snd (fst x)) (m_up m)) qs in
       let m' := mkM (m_up m || did_upgrade frames)
                     (m_authed m || existsb (fun f => match f with OAuthOk _ => true | _ => false end) frames)
                     (match fresh with Some a => Some a | None => m_cached m end)
